@@ -28,8 +28,11 @@ RULE = ("a case is one history of one particle: a generated script (seq/par/xor/
         "forwards the particle at least once")
 PARTIAL = [
     "C19_full (history level: once every particle and call result has been delivered, no call or canon that a peer of the network can "
-    "execute remains marked as sent) is kept as a definition (CallSpec.C19_full, a network semantics over RunExec.run); it is not proved "
-    "(it needs the merge-approximation invariant of the trace handler, C04/C07-C09) and is covered by oracle (d) on drained histories",
+    "execute given the merged data remains marked as sent; CallSpec.C19_full over a network semantics on RunExec.run) is REFUTED by the "
+    "model (C19_full_refuted) and by the code with the same witness: known finding forwarded-before-arguments-known (a call is marked and "
+    "forwarded before its arguments are known; the sender keeps its mark when it learns them). What holds of the second sentence of the "
+    "property is checked by oracle (d) on drained histories: a leftover mark that its target can execute is accepted only when the target "
+    "has that mark in its own final data (the forward did arrive); a mark that never reached its target is a violation",
     "C19_marked_forwarded (calls) and C19_canon (the three canon instructions) are proved per instruction instance: a NEW sent-mark "
     "(one that is not the state met in the previous/current data) is written exactly when the target / designated peer, different from "
     "the current peer, is pushed; that over a whole run the marks and the pushes correspond one to one is covered by the lock-step and "
@@ -43,6 +46,7 @@ ASSUMPTIONS = [
     "the host contract of air/README.md (store the data, queue the requests, send the data to every next peer) as implemented by harness/src/sim.rs",
     "a probe run (a peer executing over given data as its previous data, outcome discarded) shows what that peer can execute given the data",
 ]
+KNOWN = {"forwarded-before-arguments-known"}
 CHECKS = {"model": "c19_check_case", "oracle_c19": "c19_oracle", "count_forwarding": "forwards", "count_requesting": "requests"}
 HEADER = ("From Aqua Require Import Base Json Air Trace Handler Values Scalars Lens Exec RunExec ExecStreams ExecCases C19Cases.\n"
           "Open Scope N_scope.\nOpen Scope list_scope.\n")
@@ -102,7 +106,7 @@ def evaluate(cases, result, tier):
         if inf["forwards"] > 0:
             result["distinct"].add(json.dumps([c["script"], c["ops"]]))
         for f in o.get("oracle_failures", []):
-            result["oracle_fail"].append({"case": dict(c), "detail": f, "key": None,
+            result["oracle_fail"].append({"case": dict(c), "detail": f, "key": f.get("key") if f.get("key") in KNOWN else None,
                                           "what": "property oracle false on the implementation: %s" % f.get("what", "")})
     # ---- lock-step with the executor model + Coq-side oracle (shared driver)
     saved = exec_common.HEADER
